@@ -427,6 +427,20 @@ func streamManageDeployment(r *rand.Rand, i int, tier string) *Case {
 	if tier == "thorough" && r.Intn(20) == 0 {
 		n = 100 + r.Intn(200)
 	}
+	exactPct := -1
+	if r.Intn(10) == 0 {
+		// node counts for which percent * nodes / 100 is an exact integer: the percentage must resolve to exactly
+		// that integer (a ratio computed in floating point can overshoot by one: 7% of 100, 28% of 25, 14% of 50)
+		n = pick(r, 25, 50, 100)
+		exactPct = (100 / map[int]int{25: 25, 50: 50, 100: 100}[n]) * (1 + r.Intn(map[int]int{25: 25, 50: 50, 100: 100}[n]))
+		if n == 25 {
+			exactPct = 4 * (1 + r.Intn(25))
+		} else if n == 50 {
+			exactPct = 2 * (1 + r.Intn(50))
+		} else {
+			exactPct = 1 + r.Intn(100)
+		}
+	}
 	cur := newERS("foo-cur", genTemplate(r, 2, false), now.Add(-time.Hour))
 	old := newERS("foo-old", genTemplate(r, 1, false), now.Add(-2*time.Hour))
 	cur.Status = genERSStatus(r, now)
@@ -438,6 +452,12 @@ func streamManageDeployment(r *rand.Rand, i int, tier string) *Case {
 		eds.Annotations[edsv1.ExtendedDaemonSetRolloutFrozenAnnotationKey] = v
 	}
 	eds.Spec.Strategy = genRollingStrategy(r, n)
+	if exactPct > 0 {
+		eds.Spec.Strategy.RollingUpdate.MaxUnavailable = ios(intstr.FromString(fmt.Sprintf("%d%%", exactPct)))
+		if r.Intn(2) == 0 {
+			eds.Spec.Strategy.RollingUpdate.MaxPodSchedulerFailure = ios(intstr.FromString(fmt.Sprintf("%d%%", exactPct)))
+		}
+	}
 	if r.Intn(3) == 0 {
 		// the replica set carries the copy of the ExtendedDaemonSet's annotations made when it was
 		// created (newReplicaSetFromInstance): the switches as they were THEN, which the user may have
@@ -498,6 +518,20 @@ func streamManageDeployment(r *rand.Rand, i int, tier string) *Case {
 		order = append(order, ni)
 		if pod != nil {
 			objs = append(objs, pod)
+		}
+	}
+	// listed nodes the replica set does not target (unfit for the template, tainted): FilterAndMapPodsByNode
+	// files EVERY listed node in NodeByName but only the targeted ones in PodByNodeName — percentages
+	// (maxUnavailable, maxPodSchedulerFailure, slowStartAdditiveIncrease) are resolved against the targeted ones
+	if r.Intn(3) == 0 {
+		for k := 1 + r.Intn(n+2); k > 0; k-- {
+			un := genNode(r, fmt.Sprintf("unfit%d", k), false)
+			params.NodeByName[un.Name] = strategy.NewNodeItem(un, nil)
+		}
+		catCount["listed-untargeted-nodes"]++
+		if r.Intn(2) == 0 {
+			eds.Spec.Strategy.RollingUpdate.SlowStartAdditiveIncrease = ios(intstr.FromString(fmt.Sprintf("%d%%", 10+r.Intn(60))))
+			eds.Spec.Strategy.RollingUpdate.MaxParallelPodCreation = edsv1.NewInt32(250)
 		}
 	}
 	// canary nodes: existing names, sometimes unknown names
